@@ -267,7 +267,7 @@ fn base_nets() -> (Cfg, Net, Net) {
 }
 
 fn base_frames(net: &Net) -> Vec<(&'static str, Vec<u8>)> {
-    let stun = StunReq { mtype: 1, magic: true, id: [7; 16], attrs: vec![] }.bytes();
+    let stun = StunReq { mtype: 1, magic: true, id: [7; 16], attrs: vec![], trailer: Hex(vec![]) }.bytes();
     vec![
         ("echo", echo_frame(net, 1, 1, b"abcdefgh")),
         ("syn", tcp_frame(net, &TcpH::new(40000, 80, 100, 0, F_SYN), &[])),
@@ -328,6 +328,10 @@ pub struct Member {
     pub target: Target,
     /// also address the IP packet itself (not only the ARP/NS target) to the chosen address
     pub ip_dst_too: bool,
+    /// the self-IP list holds no address of the frame's family at all (a list of IPv6 addresses
+    /// only and an ARP / IPv4 request, or the reverse)
+    #[serde(default)]
+    pub single_family: bool,
 }
 
 fn member_strategy() -> impl Strategy<Value = Member> {
@@ -344,16 +348,25 @@ fn member_strategy() -> impl Strategy<Value = Member> {
             1 => any::<[u8; 3]>().prop_map(Target::Multicast),
             2 => any::<u16>().prop_map(Target::OwnGroup),
         ];
-        (Just(scn), req(v4), target, any::<bool>()).prop_map(|(scn, req, target, ip_dst_too)| Member { scn, req, target, ip_dst_too })
+        (Just(scn), req(v4), target, any::<bool>(), prop::bool::weighted(0.12)).prop_map(|(scn, req, target, ip_dst_too, single_family)| Member { scn, req, target, ip_dst_too, single_family })
     })
 }
 
 fn member_check(m: &Member, st: &mut Stats) -> Check {
     Sut::reset();
     st.eval();
-    let cfg = &m.scn.cfg;
-    let s = cfg.self_ips.clone().unwrap_or_default();
     let v4 = m.scn.net.is_v4();
+    let mut cfg_owned = m.scn.cfg.clone();
+    if m.single_family {
+        let mut l: Vec<IpAddr> = cfg_owned.self_ips.clone().unwrap_or_default().into_iter().filter(|a| a.is_ipv4() != v4).collect();
+        if l.is_empty() {
+            l.push(if v4 { IpAddr::V6(Ipv6Addr::new(0x2001, 0xdb8, 0, 0, 0, 0, 0, 0x51)) } else { IpAddr::V4(Ipv4Addr::new(192, 0, 2, 51)) });
+        }
+        cfg_owned.self_ips = Some(l);
+        st.class("self-ip-list-without-any-address-of-the-frame's-family");
+    }
+    let cfg = &cfg_owned;
+    let s = cfg.self_ips.clone().unwrap_or_default();
     let fam: Vec<IpAddr> = s.iter().filter(|a| a.is_ipv4() == v4).cloned().collect();
     let addr: IpAddr = match &m.target {
         Target::InSelf(i) if !fam.is_empty() => fam[pick(*i, fam.len())],
